@@ -416,6 +416,28 @@ def argtype_rule(ctx, syn):
                         ctx.report(r, "unevaluated", "parse_dataoperator could not be evaluated (%s) on (%r, %r, %r): the agreement with get_arg_type is not established" % (u, op, text, vt), pdo.file, pdo.line)
             r.hit("text:%s/%s" % (text, quoted), sample={"text": text, "quoted": quoted, "class": repr(vt)} if text in ("True", "1.2.3", "T10", "a|b") else None)
     ctx.floor(r, n, 400, "classifier/consumer evaluations")
+    # every class the consumer has arms for is reachable, and the literal the printer emits for a numeric operator is read
+    # back in the class of that operator (C09.LOSSLESS pins the printer to a bare {}: Rust prints 2.5 as "2.5", 3.0 as "3")
+    classes = {}
+    for text in texts + ["0.5", "2.5", "-1.5", "10.25", "3", "-7"]:
+        try:
+            vt = Evaluator(hooks=hooks).run_body(gat.body, {"s": text, "quoted": False})
+            if isinstance(vt, EnumVal):
+                classes.setdefault(vt.name, text)
+        except (Unknown, Panic):
+            pass
+    want = set(v["name"] for v in syn.enums["ArgType"]["variants"]) - {"List"} if "ArgType" in syn.enums else set()
+    r.hit("classes", sample={"unquoted_classes_reached": dict(sorted(classes.items()))})
+    for missing in sorted(want - set(classes)):
+        ctx.report(r, "class-unreachable:" + missing, "no unquoted argument text is ever classified as ArgType::%s: the arms of parse_dataoperator for that class are dead, so e.g. the literal the printer emits for an operator of that kind is read back as another kind (or rejected)" % missing, gat.file, gat.line)
+    for text, cls in (("0.5", "Float"), ("2.5", "Float"), ("-1.5", "Float"), ("10.25", "Float"), ("3", "Integer"), ("-7", "Integer")):
+        try:
+            vt = Evaluator(hooks=hooks).run_body(gat.body, {"s": text, "quoted": False})
+        except (Unknown, Panic):
+            continue
+        r.hit("printed:" + text)
+        if not (isinstance(vt, EnumVal) and vt.name == cls):
+            ctx.report(r, "printed-literal:" + cls, "the numeric literal %s (what DataOperator::to_string prints for a %s operand) is classified as %r: `> %s` printed from a programmatic query is not parsed back as the same comparison" % (text, cls.lower(), vt, text), gat.file, gat.line)
 
 
 def align_rule(ctx, syn):
